@@ -61,7 +61,7 @@ claimed["C11"] = dict(
    text="Static path/dataflow rules on the verifier-state update decide structural necessary conditions of the update data: every added leaf is recorded on every "
         "path of the add loop, the previous leaf count is read before the add phase, the add lists are sorted after the last insertion, the destroyed-roots list is "
         "computed from the pre-add state, the delete lists come from the core run with emptied targets, every success return hands out the filled update data, the recorded position "
-        "of an added leaf depends on the lifting call, no node is identified by a truncated hash, and the leaf count is only ever incremented. The hashes and positions inside the lists are not decided.",
+        "of an added leaf depends on the lifting call, no node is identified by a truncated hash, the leaf count is only ever incremented, and no count taken from a length is narrowed. The hashes and positions inside the lists are not decided.",
    ref="DESIGN.md 5/C11, engine E2",
    technique="static must-pass-through (dominance over loop latches), ordering and provenance rules on go/ssa; phases resolved by role (custom analyzer)")
 claimed["C07"] = dict(
@@ -78,7 +78,7 @@ claimed["C10"] = dict(
         "hashes cannot be reported as leaves — that every success path of both Modify implementations removes every deleted hash from the index, every undone addition leaves "
         "it, and a Modify rejected by validation has not touched it; that the indexed position is the position expression the node is stored at, follows the node on every step of a "
         "multi-step move, and is re-translated before TotalRows is switched; and that a position read either goes through the keyed node store or gates the pointer walk from an arithmetically "
-        "chosen root by an exact existence test of the position against the leaf count (a read outside the forest gives the zero hash), and that a hit under the pointer forest's truncated-hash key is confirmed by comparing the full hash before it is reported as found. Positions returned (arithmetic) and the hash read at an existing position are not decided.",
+        "chosen root by an exact existence test of the position against the leaf count (a read outside the forest gives the zero hash), that a hit under the pointer forest's truncated-hash key is confirmed by comparing the full hash before it is reported as found, and (layout analysis) that the map forest's look-ups translate positions in the right direction and return them in the tree layout. Positions returned (arithmetic) and the hash read at an existing position are not decided.",
    ref="DESIGN.md 5/C10, engine E5",
    technique="static who-may-insert rule with typed key provenance (interprocedural backward slice), guard analysis, must-pass-through pairing and ordering rules on go/ssa (custom analyzer)")
 claimed["C09"] = dict(
